@@ -1010,3 +1010,7 @@ mod concurrency_tests {
         );
     }
 }
+
+/// Makes the harness module of the private `buffers` module reachable from `crate::verif`.
+#[cfg(all(test, ipa_verif))]
+pub(crate) use buffers::verif_h2;
